@@ -40,14 +40,17 @@ theorem found_zip (o : Oracle) (crc : Bytes → Nat) (pre suf s : Bytes) (z : Zi
         .ok (before ++ [.literal (pre.length + (zipHeader z).length - prev), .deflate r] ++ after) :=
   Proofs.found_zip o crc pre suf s z r hn hx hnp hacc hbig hq
 
-/-- consecutive PNG IDAT chunks totalling more than 1024 bytes. `hend`: what follows the last piece is
-    not another IDAT chunk that fits in the input (fewer than 12 bytes remain, or the type field is
-    not "IDAT", or the declared length reaches past the end) — normally the IEND chunk. -/
+/-- consecutive PNG IDAT chunks totalling more than 1024 bytes. `hend` (`Proofs.IdatEnd`): what
+    follows the last piece is not itself a well-formed IDAT chunk of the run — fewer than 12 bytes
+    remain, or the type field is not "IDAT", or the declared length reaches past the end, or the
+    length is zero, or the CRC does not match (a damaged chunk; the last two after the repair of
+    parse_idat). A following non-empty IDAT chunk with a matching CRC is part of the run, i.e. a
+    different `pieces`. Normally the IEND chunk follows. -/
 theorem found_idat (o : Oracle) (crc : Bytes → Nat) (pre suf s hdr adler : Bytes) (pieces : List Bytes) (r : Res)
     (hp : ∀ p ∈ pieces, p ≠ [] ∧ p.length < 2 ^ 32) (hcrc : ∀ x, crc x < 2 ^ 32)
     (hcat : pieces.flatten = hdr ++ s ++ adler) (hhdr : hdr.length = 2) (had : adler.length = 4)
     (hne : pieces ≠ []) (hnp : NoPanic o)
-    (hend : suf.length < 12 ∨ (suf.drop 4).take 4 ≠ idatTag ∨ suf.length < ofBe32 (suf.take 4) + 12)
+    (hend : IdatEnd crc suf)
     (hacc : o.verified s = .ok r) (hfull : r.size = s.length)
     (hbig : (idatWrap crc pieces).length > Gen.MIN_BLOCKSIZE)
     (hq : Quiet o crc (pre ++ idatWrap crc pieces ++ suf) (pre.length + 4) pre.length) :
